@@ -964,7 +964,8 @@ def drive_sinusoid(ctx, eqsig, cont, dts, impl, tform):
 
 
 MUTATORS = ('add_constant', 'add_series', 'remove_average', 'remove_poly', 'butter_pass', 'running_average', 'reset_same',
-            'reset_shorter')
+            'reset_shorter', 'butter_lowpass_at_nyquist', 'butter_highpass_near_zero', 'butter_band_edges', 'reset_list',
+            'reset_tuple')
 
 
 def _mutate(a, name, x1, dt):
@@ -985,6 +986,16 @@ def _mutate(a, name, x1, dt):
         a.reset_values(np.array(a.values))
     elif name == 'reset_shorter':
         a.reset_values(np.array(a.values[:a.npts - 3]))
+    elif name == 'butter_lowpass_at_nyquist':      # corner within 1 % of the Nyquist frequency
+        a.butter_pass((None, 0.995 * 0.5 / float(dt)))
+    elif name == 'butter_highpass_near_zero':      # corner below 1e-3 of the Nyquist frequency
+        a.butter_pass((5e-4 * 0.5 / float(dt), None))
+    elif name == 'butter_band_edges':
+        a.butter_pass((8e-4 * 0.5 / float(dt), 0.992 * 0.5 / float(dt)), filter_order=2)
+    elif name == 'reset_list':                     # the container forms the constructor accepts
+        a.reset_values([float(v) for v in a.values[::-1]])
+    elif name == 'reset_tuple':
+        a.reset_values(tuple(float(v) for v in -a.values))
     else:
         raise ValueError(name)
 
@@ -1030,10 +1041,10 @@ def drive_history(ctx, eqsig, x1, x2, dt, dt2, order, muts=()):
         for m in muts:
             try:
                 _mutate(a, m, x1, dt)
-            except Exception:   # noqa  (the mutators are other properties' business)
+            except Exception:   # noqa  (whether a mutator refuses is other properties' business ...)
                 ctx.observe('history:mutator-%s-raised' % m)
-                continue
-            sw.get_max_stockwell_freq(a)             # must be the trace of the values the object has NOW
+            # ... but refused or not: the call must report the trace of the values the object has NOW
+            sw.get_max_stockwell_freq(a)
             if m == 'add_constant':
                 sw.get_max_stockwell_freq(a)         # and again, now on the memoised transform
         a.reset_values(np.array(x1))
@@ -1105,6 +1116,396 @@ def drive_combine(ctx, eqsig, x1, x2, dt, angles, analysed, extras=True):
                 sw.get_max_stockwell_freq(cl.signal_by_index(j))
     except Exception as ex:   # noqa
         ctx.exception('asig.swtf==transform(values)[%s]' % par, wit(), ex)
+
+
+# ---------------------------------------------------------------------- round 3: results depend on the arguments only
+B_KINDS = ('same-shape', 'other-shape', 'same-shape', 'non-finite', 'rejected:scalar', 'other-shape', 'rejected:string',
+           'same-shape', 'rejected:length-1', 'rejected:none')
+REJECTED = {'rejected:scalar': 5.0, 'rejected:string': 'record', 'rejected:length-1': [1.0], 'rejected:none': None}
+
+
+def _seq_aba(cont, cont2, dt, impl, bkind):
+    rec, kind = np.array(cont), _kind(cont)
+    rec2 = np.array(cont2) if cont2 is not None else np.zeros(0)
+    return lambda: _raw_wit('aba', rec, kind, record2=rec2, dt=dt, dt_form=_dt_form(dt), impl=impl, bkind=bkind)
+
+
+def _through(ctx, eqsig, impl, c, dt, wit, par, judged):
+    """One input through transform -> itransform, get_max_tifq_vals_freq and AccSignal -> get_max_stockwell_freq. judged: an
+    exception refutes (in-domain record); otherwise the input is one the statement does not cover (counted)."""
+    sw = eqsig.stockwell
+    out = {}
+
+    def call(clause, fn, *a):
+        if judged:
+            return _call(ctx, clause, wit, fn, *a)
+        try:
+            return fn(*a)
+        except Exception:   # noqa
+            ctx.observe('aba:out-of-domain-second-input-rejected')
+            return None
+    s = call('%s==definition[%s]' % (impl, par), getattr(sw, impl), c)
+    out['transform'] = s
+    if s is not None:
+        out['itransform'] = call('inverse==record-mean-nyquist[%s]' % par, sw.itransform, s)
+        out['tifq'] = call('maxfreq(tifq).is-frequency-of-column-max[%s]' % par, sw.get_max_tifq_vals_freq, s, dt)
+    asig = call('maxfreq(asig).is-frequency-of-column-max[%s]' % par, eqsig.AccSignal, c, dt)
+    if asig is not None:
+        out['asig'] = call('maxfreq(asig).is-frequency-of-column-max[%s]' % par, sw.get_max_stockwell_freq, asig)
+        out['swtf'] = getattr(asig, 'swtf', None)
+    return out
+
+
+def _bits(a):
+    a = np.asarray(a)
+    return (a.shape, a.dtype.str, a.tobytes())
+
+
+def _same_again(ctx, prefix, first, third, rec, impl, wit):
+    """The third round (after another input went through the same functions) against the first one. Transform and inverse:
+    both satisfy the definition to RTOL, so they agree to 2 RTOL; the traces are functions of (array, dt) alone: identical
+    whenever the arrays they were taken from are identical."""
+    xe = O.even_part(rec)
+    n_pts = len(xe)
+    fac = _fac(rec)
+    scales = {'transform': float(np.sum(np.abs(xe))), 'itransform': n_pts * float(np.max(np.abs(xe)))}
+    for key in ('transform', 'itransform'):
+        a, b = first.get(key), third.get(key)
+        if a is None or b is None:
+            continue
+        name = impl if key == 'transform' else key
+        ok, idx, e, al = tol.worst(np.asarray(b), np.asarray(a), scale=scales[key], rtol=2 * RTOL * fac)
+        ctx.check(ok, '%s(%s)' % (prefix, name), wit,
+                  '%s(A) after another input went through the same function differs from the first %s(A) (length %d): entry %s '
+                  '|diff|=%.3g allowed %.3g' % (name, name, len(rec), idx, e, al))
+    for key, src, name in (('tifq', 'transform', 'get_max_tifq_vals_freq'), ('asig', 'swtf', 'get_max_stockwell_freq')):
+        a, b = first.get(key), third.get(key)
+        sa, sb = first.get(src), third.get(src)
+        if a is None or b is None or sa is None or sb is None:
+            continue
+        if _bits(sa) != _bits(sb):
+            ctx.observe('aba:transforms-not-bitwise-equal-traces-not-compared')
+            continue
+        ctx.check(_bits(a) == _bits(b), '%s(%s)' % (prefix, name), wit,
+                  '%s of a bitwise identical time-frequency array and the same dt differs between the first and the third call '
+                  '(another input went through in between): %s' % (name, _first_change(b, np.asarray(a))))
+
+
+@_as_sequence(_seq_aba)
+def drive_aba(ctx, eqsig, cont, cont2, dt, impl, bkind):
+    """f(A); f(B); f(A) for every function of the statement: the third round is judged online by the defining clauses and
+    compared with the first. B: a record of the same shape, of another shape, a record with nan / inf or an input the
+    library rejects (the raising call in the middle). With B of the same shape also ONE argument object whose contents are
+    replaced between the calls (A, then B, then A again in the same buffer): a memo keyed on the identity of its argument
+    returns the stale result there."""
+    sw = eqsig.stockwell
+    rec = np.array(cont)
+    par = _par(len(rec))
+    wit = _SEQ[-1]
+    first = _through(ctx, eqsig, impl, cont, dt, wit, par, True)
+    if bkind.startswith('rejected'):
+        _through(ctx, eqsig, impl, REJECTED[bkind], dt, wit, par, False)
+    else:
+        ok_b = _intake(cont2)[2] is None
+        _through(ctx, eqsig, impl, cont2, dt, wit, _par(len(cont2)), ok_b)
+    third = _through(ctx, eqsig, impl, cont, dt, wit, par, True)
+    _same_again(ctx, 'third-call==first-call', first, third, rec, impl, wit)
+    _purity(ctx, cont, rec, wit, 'the record A')
+    if bkind != 'same-shape' or rec.dtype.kind not in 'fiub':
+        return
+    # -- one argument object, contents replaced in place between the calls
+    a64 = np.asarray(rec, dtype=float)
+    b64 = np.asarray(np.array(cont2), dtype=float)
+    f = getattr(sw, impl)
+    clause = '%s==definition[%s]' % (impl, par)
+    buf = a64.copy()
+    s1 = _call(ctx, clause, wit, f, buf)
+    buf[...] = b64
+    s2 = _call(ctx, clause, wit, f, buf)             # judged online against the contents at call entry
+    buf[...] = a64
+    s3 = _call(ctx, clause, wit, f, buf)
+    if s1 is None or s2 is None or s3 is None:
+        return
+    one, three = {'transform': s1}, {'transform': s3}
+    cl_t = 'maxfreq(tifq).is-frequency-of-column-max[%s]' % par
+    t = np.abs(s1)
+    remember(t, s1, 'abs')
+    one['tifq'] = _call(ctx, cl_t, wit, sw.get_max_tifq_vals_freq, t, dt)
+    t[...] = np.abs(s2)
+    remember(t, s2, 'abs')
+    _call(ctx, cl_t, wit, sw.get_max_tifq_vals_freq, t, dt)
+    t[...] = np.abs(s3)
+    remember(t, s3, 'abs')
+    three['tifq'] = _call(ctx, cl_t, wit, sw.get_max_tifq_vals_freq, t, dt)
+    cl_i = 'inverse==record-mean-nyquist[%s]' % par
+    st = np.array(s1)
+    remember(st, s1, None)
+    one['itransform'] = _call(ctx, cl_i, wit, sw.itransform, st)
+    st[...] = s2
+    remember(st, s2, None)
+    _call(ctx, cl_i, wit, sw.itransform, st)
+    st[...] = s3
+    remember(st, s3, None)
+    three['itransform'] = _call(ctx, cl_i, wit, sw.itransform, st)
+    _same_again(ctx, 'refilled-argument.third==first', one, three, a64, impl, wit)
+
+
+# ------------------------------------------------ round 3: object protocols, attribute assignment, refused operations
+PROTOS = ('copy', 'deepcopy', 'pickle')
+WARM = ('cold', 'swtf', 'spectra', 'motion', 'response', 'all')
+OBJ_KINDS = ('AccSignal', 'AccSignal', 'Signal', 'AccSignal', 'Cluster-member', 'AccSignal', 'Cluster-whole', 'Signal')
+ASSIGN_ATTRS = ('values', 'values', 'dt', 'npts', 'label', 'smooth_fa_freqs', 'smooth_fa_frequencies', 'response_times', 'time')
+RAISERS = ('add_series-short', 'add_series-long', 'add_signal-dt', 'add_signal-str', 'butter-scalar', 'butter-3',
+           'butter-above-nyquist', 'remove_poly-negative', 'reset-ragged', 'reset-scalar', 'reset-nan', 'reset-inf')
+REBINDING_ONLY = ('reset', 'reset1', 'reset-list', 'reset-tuple', 'warm')     # what a shallow copy may be put through
+
+
+def make_plan(rng, idx, n):
+    """A JSON-able plan of one protocol history (the witness carries it)."""
+    proto = PROTOS[idx % 3]
+    ops = []
+    for _ in range(5):
+        who = 'oc'[int(rng.integers(2))]
+        r = rng.random()
+        if r < 0.3:
+            op = REBINDING_ONLY[int(rng.integers(len(REBINDING_ONLY)))]
+        elif r < 0.5 and proto != 'copy':
+            op = 'mut:' + MUTATORS[int(rng.integers(len(MUTATORS)))]
+        elif r < 0.75:
+            op = 'assign:%s:%s:%d' % (ASSIGN_ATTRS[int(rng.integers(len(ASSIGN_ATTRS)))],
+                                      ('list', 'tuple', 'ndarray')[int(rng.integers(3))], (1, 2, 3, 0)[int(rng.integers(4))])
+        else:
+            op = 'raise:' + RAISERS[int(rng.integers(len(RAISERS)))]
+        ops.append([who, op])
+    return {'proto': proto, 'level': (2, 4, 5)[(idx // 3) % 3], 'warm': WARM[(idx // 3) % len(WARM)],
+            'obj': OBJ_KINDS[idx % len(OBJ_KINDS)], 'first': 'oc'[(idx // 2) % 2], 'read_first': bool((idx // 4) % 2),
+            'ops': ops}
+
+
+def _seq_protocols(cont, x2, dt, plan):
+    rec, kind, p2 = np.array(cont), _kind(cont), np.array(x2)
+    return lambda: _raw_wit('protocols', rec, kind, record2=p2, dt=dt, dt_form=_dt_form(dt), plan=plan)
+
+
+def _form(vals, form):
+    if form == 'list':
+        return [float(v) for v in vals]
+    if form == 'tuple':
+        return tuple(float(v) for v in vals)
+    return np.array(vals, dtype=float)
+
+
+def _judged_read(ctx, sw, o, clauses, wit, kw=False):
+    """get_max_stockwell_freq on the object (judged online by the monitor) and, driver side, the returned trace against the
+    reference transform of the values the object had when it was called (its OWN current values; no cache is read)."""
+    vals = _snapshot(getattr(o, 'values', None))
+    rec, kind, skip = _intake(vals) if vals is not None else (None, None, 'unconvertible-input')
+    try:
+        r = sw.get_max_stockwell_freq(asig=o) if kw else sw.get_max_stockwell_freq(o)
+    except Exception as ex:   # noqa
+        if skip:
+            ctx.observe('protocols:read-raised-on-out-of-domain-values(%s)' % skip)
+        else:
+            for cl in clauses:
+                ctx.exception(cl, wit(), ex)
+        return None
+    if skip:
+        ctx.observe('protocols:read-of-out-of-domain-values(%s)' % skip)
+        return r
+    ref, _ = _oracle(O.even_part(rec))
+    probe = core.Ctx(PROP_ID, ctx.tier, 0, 0, 1)
+    check_maxfreq(probe, 'asig', rec, kind, o.dt, np.abs(ref), r, wit, amp_is_reference=True)
+    for cl in clauses:
+        ctx.check(not probe.violations, cl, wit,
+                  'get_max_stockwell_freq does not report the trace of the values the object has (length %d): %s'
+                  % (len(rec), probe.violations[0]['msg'] if probe.violations else ''))
+    return r
+
+
+def _warm(ctx, sw, o, warm, dt, clauses, wit):
+    """Fill the caches of the object by the kinds of read the classes offer (what they hold is other properties' business)."""
+    import warnings
+    names = []
+    if warm in ('swtf', 'all'):
+        _judged_read(ctx, sw, o, clauses, wit)
+    if warm in ('spectra', 'all'):
+        names += ['fa_spectrum', 'fa_frequencies', 'smooth_fa_spectrum']
+    if warm in ('motion', 'all'):
+        names += ['velocity', 'displacement', 'pga', 'pgv']
+    if warm in ('response', 'all') and hasattr(o, 'response_times'):
+        try:
+            o.response_times = np.array([8.0, 20.0, 50.0]) * float(dt)      # periods tied to dt: no up-sampling of the record
+            names += ['s_a', 's_d']
+        except Exception:   # noqa
+            ctx.observe('protocols:response_times-not-settable')
+    with np.errstate(all='ignore'), warnings.catch_warnings():
+        warnings.simplefilter('ignore')
+        for name in names:
+            if not hasattr(type(o), name):
+                continue
+            try:
+                getattr(o, name)
+            except Exception:   # noqa
+                ctx.observe('protocols:read-of-%s-raised' % name)
+
+
+def _assign(ctx, o, attr, form, k, x2):
+    """Assignment through a public attribute name after construction, in the container forms of the constructor."""
+    if attr == 'values':
+        val = _form(x2 if k == 0 else x2[:k], form)
+    elif attr in ('dt',):
+        val = 2.0 * float(o.dt)
+    elif attr == 'npts':
+        val = max(4, len(x2) - 2)
+    elif attr == 'label':
+        val = 'relabelled'
+    elif attr == 'time':
+        val = _form(np.arange(len(x2)) * 0.5, form)
+    else:
+        val = _form(np.array([0.5, 2.0, 7.0])[:(k or 3)], form)
+    try:
+        setattr(o, attr, val)
+        ctx.observe('assignment:%s-accepted-or-ignored' % attr)
+    except Exception:   # noqa
+        ctx.observe('assignment:%s-rejected' % attr)
+
+
+def _refused(ctx, eqsig, o, which, x2, dt):
+    """An operation the clean code rejects (or accepts silently: nan / inf). Returns the values to restore afterwards when the
+    operation is known to leave values no record (0-d after reset_values(scalar), non-finite), else None."""
+    n = len(x2)
+    restore = None
+    try:
+        if which == 'add_series-short':
+            o.add_series(x2[:n - 1])
+        elif which == 'add_series-long':
+            o.add_series(np.concatenate((x2, x2[:1])))
+        elif which == 'add_signal-dt':
+            o.add_signal(eqsig.AccSignal(x2, 2.0 * float(dt)))
+        elif which == 'add_signal-str':
+            o.add_signal('not a signal')
+        elif which == 'butter-scalar':
+            o.butter_pass(0.25 / float(dt))
+        elif which == 'butter-3':
+            o.butter_pass((0.1 / float(dt), 0.2 / float(dt), 0.3 / float(dt)))
+        elif which == 'butter-above-nyquist':
+            o.butter_pass((0.05 / float(dt), 0.75 / float(dt)))
+        elif which == 'remove_poly-negative':
+            o.remove_poly(-1)
+        elif which == 'reset-ragged':
+            o.reset_values([[1.0, 2.0], [3.0]])
+        elif which == 'reset-scalar':
+            restore = np.array(x2)
+            o.reset_values(5.0)
+        elif which in ('reset-nan', 'reset-inf'):
+            restore = np.array(x2)
+            y = np.array(x2, dtype=float)
+            y[n // 2] = float('nan') if which == 'reset-nan' else float('inf')
+            o.reset_values(y)
+        else:
+            raise KeyError(which)
+        ctx.observe('refused-operation:%s-accepted' % which)
+    except KeyError:
+        raise
+    except Exception:   # noqa
+        ctx.observe('refused-operation:%s-raised' % which)
+    return restore
+
+
+@_as_sequence(_seq_protocols)
+def drive_protocols(ctx, eqsig, cont, x2, dt, plan):
+    """Python object protocols on signal objects and what the classes let a caller do afterwards. An object (AccSignal,
+    Signal, member of a Cluster) is brought into a cache state (cold / Stockwell / spectra / motion / response spectra / all),
+    copied by copy.copy, copy.deepcopy or a pickle round trip, then original and copy go through reads, rebinding resets (list /
+    tuple / array), mutators, assignments through the public attribute names (1, 2, 3 entries or a whole record; list / tuple /
+    array) and operations the library refuses (wrong lengths, other time step, bad cut-offs, ragged / scalar / nan / inf
+    records), in a random order on either object. After every step the touched object is read, at the end both are: every
+    get_max_stockwell_freq must report the trace of the values that object has at that moment (monitor clauses online plus
+    the driver-side clauses named after the kind of step)."""
+    import copy
+    import pickle
+    sw = eqsig.stockwell
+    rec = np.array(cont)
+    x2 = np.array(x2, dtype=float)
+    wit = _SEQ[-1]
+    proto = plan['proto']
+    cl_p = 'protocols.trace-of-own-values[%s]' % proto
+    try:
+        holder = None
+        if plan['obj'].startswith('Cluster'):
+            holder = eqsig.Cluster([cont, x2], float(dt), stypes='acc' if plan['level'] == 4 else 'custom')
+            o = holder.signal_by_index(0)
+        elif plan['obj'] == 'Signal':
+            o = eqsig.Signal(cont, dt)
+        else:
+            o = eqsig.AccSignal(cont, dt)
+        _warm(ctx, sw, o, plan['warm'], dt, [cl_p], wit)
+        src = holder if plan['obj'] == 'Cluster-whole' else o
+        if proto == 'copy':
+            dup = copy.copy(src)
+        elif proto == 'deepcopy':
+            dup = copy.deepcopy(src)
+        else:
+            dup = pickle.loads(pickle.dumps(src, protocol=plan['level']))
+        c = dup.signal_by_index(0) if plan['obj'] == 'Cluster-whole' else dup
+        if proto == 'copy' and plan['obj'] == 'Cluster-whole':
+            # a shallow copy of the Cluster shares the member objects themselves: there is only one object to speak of
+            ctx.observe('protocols:shallow-cluster-copy-shares-its-members')
+        objs = {'o': o, 'c': c}
+        order = [plan['first'], 'c' if plan['first'] == 'o' else 'o']
+        rebound = set()
+        if plan['read_first']:
+            for who in order:
+                _judged_read(ctx, sw, objs[who], [cl_p], wit)
+        for i, (who, op) in enumerate(plan['ops']):
+            obj = objs[who]
+            clauses = [cl_p]
+            restore = None
+            if op == 'reset':
+                obj.reset_values(np.array(x2))
+                rebound.add(who)
+            elif op == 'reset1':
+                obj.reset_values(np.array(rec))
+                rebound.add(who)
+            elif op == 'reset-list':
+                obj.reset_values([float(v) for v in x2])
+                rebound.add(who)
+            elif op == 'reset-tuple':
+                obj.reset_values(tuple(float(v) for v in x2[::-1]))
+                rebound.add(who)
+            elif op == 'warm':
+                _warm(ctx, sw, obj, WARM[1 + (i + len(rebound)) % 5], dt, [cl_p], wit)
+            elif op.startswith('mut:'):
+                try:
+                    _mutate(obj, op[4:], x2, dt)
+                except Exception:   # noqa
+                    ctx.observe('protocols:mutator-%s-raised' % op[4:])
+                    clauses.append('after-refused-operation.trace-of-own-values')
+            elif op.startswith('assign:'):
+                _, attr, form, k = op.split(':')
+                _assign(ctx, obj, attr, form, int(k), x2)
+                clauses.append('after-assignment.trace-of-own-values')
+            elif op.startswith('raise:'):
+                restore = _refused(ctx, eqsig, obj, op[6:], x2, dt)
+                clauses.append('after-refused-operation.trace-of-own-values')
+            else:
+                raise ValueError(op)
+            if proto == 'copy' and o is not c and rebound and np.shares_memory(np.asarray(o.values), np.asarray(c.values)):
+                # shallow copies share the value buffer by definition; after a rebinding reset they must not. If they still
+                # do, the reset was done in place: what the other object then shows is not ours to judge
+                ctx.observe('protocols:shallow-copy-still-shares-values-after-reset')
+                return
+            _judged_read(ctx, sw, obj, clauses, wit, kw=len(op) % 2 == 0)
+            if restore is not None:
+                obj.reset_values(restore)
+                rebound.add(who)
+                _judged_read(ctx, sw, obj, [cl_p, 'after-refused-operation.trace-of-own-values'], wit)
+        for who in reversed(order):
+            _judged_read(ctx, sw, objs[who], [cl_p], wit)
+            _judged_read(ctx, sw, objs[who], [cl_p], wit, kw=True)      # and on whatever the first read memoised
+    except Exception as ex:   # noqa
+        ctx.exception(cl_p, wit(), ex)
+    _purity(ctx, cont, rec, wit, 'the record the objects were built from')
 
 
 def drive_out_of_domain(ctx, eqsig, rng):
@@ -1263,7 +1664,8 @@ def draw_dts(rng, idx, count, n_pts=None):
 
 CLASSES_A = ['noise', 'quake', 'walk', 'chirp', 'impulse', 'plateau', 'beat', 'step', 'hat', 'alt', 'zeropad', 'intnoise',
              'sine', 'const', 'flat-ends', 'extreme-first', 'extreme-last', 'sign-change-end', 'offset', 'micro', 'macro',
-             'ramp', 'one-sided', 'nyquist-mix', 'tail-heavy', 'single-changed', 'spike-range']
+             'ramp', 'one-sided', 'nyquist-mix', 'tail-heavy', 'single-changed', 'spike-range',
+             'silent', 'last-only', 'positive-only', 'non-positive']
 EXTREME_SCALE = ('micro', 'macro', 'offset', 'spike-range')
 NARROW = ('int32', 'int16', 'int8', 'uint8', 'uint16')
 
@@ -1363,6 +1765,19 @@ def make_record(rng, n, cls):
         x[int(rng.integers(n))] += rng.choice([-1.0, 1.0]) * 10.0 ** rng.uniform(-3, 1)
     elif cls == 'spike-range':          # one sample 1e3..1e12 times larger than everything else
         x[int(rng.integers(n))] = rng.choice([-1.0, 1.0]) * 10.0 ** rng.uniform(3, 12)
+    elif cls == 'silent':               # a dead channel: every sample zero (+0.0 or -0.0) -- valid input, the transform is zero
+        x = np.zeros(n) if rng.random() < 0.7 else -np.zeros(n)
+    elif cls == 'last-only':            # pre-event padding: only the last sample is non-zero (odd n: the even part is silent)
+        x = np.zeros(n)
+        x[-1] = rng.choice([-1.0, 1.0]) * 10.0 ** rng.uniform(-3, 3)
+    elif cls == 'positive-only':        # strictly one-signed: no zero, no sign change
+        x = np.abs(x) + 10.0 ** rng.uniform(-3, 1)
+    elif cls == 'non-positive':         # one-signed with exact zeros: max(x) == 0 although the record is not silent
+        x = -np.abs(x) - 1e-3
+        x[rng.random(n) < 0.3] = 0.0
+        x[int(rng.integers(n))] = 0.0
+        if not np.any(x):
+            x[0] = -1.0
     else:
         raise ValueError(cls)
     return x
@@ -1435,6 +1850,9 @@ def run_item(ctx, eqsig, rng, idx, item):
             cont, ck = (x, 'f64') if idx % 12 == 1 else ([float(v) for v in x], 'list')
         elif cls in EXTREME_SCALE and idx % 4 == 0:       # (15) float32 x extreme scale / dynamic range, every run
             cont, ck = x.astype(np.float32), 'f32'
+        if cls in ('silent', 'last-only') and np.asarray(cont).dtype.kind == 'u':
+            udt = np.asarray(cont).dtype      # the affine map onto an unsigned range would turn the zeros into counts
+            cont = np.where(x != 0, np.iinfo(udt).max, 0).astype(udt)
         dt = draw_dts(rng, idx, 8, 2 * (n // 2))[idx % 8]
         rec = np.array(cont)
         ctx.case(core.digest(rec, ck, float(dt), 'def'), nontrivial=len(set(rec.tolist())) > 1,
@@ -1447,12 +1865,35 @@ def run_item(ctx, eqsig, rng, idx, item):
         if idx % 3 == 0 or idx % 12 == 1:
             y = y / float(np.max(np.abs(y)) or 1.0) * float(np.max(np.abs(rec.astype(float))) or 1.0)   # scale of the first record
         drive_back_to_back(ctx, eqsig, cont, y, dt, TIFQ_FORMS[idx % len(TIFQ_FORMS)])
+        # (25) f(A); f(B); f(A): B of the same shape / another shape / with nan or inf / an input the library rejects
+        bkind = B_KINDS[(idx + c) % len(B_KINDS)]
+        b = None
+        if bkind == 'same-shape':
+            b = y
+        elif bkind == 'other-shape':
+            m = [n - 1, n + 1, n // 2 + 2, n + 2, 2 * n - 3][int(rng.integers(5))]
+            m = min(max(m, LEN_MIN), LEN_MAX)
+            if m == n:
+                m = n - 1 if n > LEN_MIN else n + 1
+            b = np.resize(y, m) * (1.0 + 0.25 * np.arange(m) / m)
+        elif bkind == 'non-finite':
+            b = y.copy()
+            b[int(rng.integers(n))] = [float('nan'), float('inf'), -float('inf')][int(rng.integers(3))]
+        drive_aba(ctx, eqsig, cont, b, dt, IMPLS[(idx // 2) % 2], bkind)
+        # (22, 23, 24) object protocols, attribute assignment, refused operations: on every record class and length
+        if (c + n) % 8 == 3:
+            plan = make_plan(rng, idx + c, n)
+            ctx.case(core.digest(rec, y, 'protocols', plan), nontrivial=len(set(rec.tolist())) > 1,
+                     cls='protocols-%s-%s-%s' % (plan['proto'], plan['warm'], plan['obj']))
+            drive_protocols(ctx, eqsig, cont, y, dt, plan)
         # linearity on float64 records: every second case up to length 64, every case above
         if n <= 64 and c % 2 == 0 or n > 64:
             xf = np.asarray(rec, dtype=float)
             ab = [(2.0, -0.5), (1.0, 1.0), (float(rng.normal()), float(rng.normal())), (1024.0, 0.0),
-                  (float(10.0 ** rng.uniform(-3, 3)), -float(10.0 ** rng.uniform(-3, 3)))][int(rng.integers(5))]
+                  (float(10.0 ** rng.uniform(-3, 3)), -float(10.0 ** rng.uniform(-3, 3))), (1.0, -1.0)][int(rng.integers(6))]
             y2 = y if idx % 2 else y * float(np.max(np.abs(xf)) or 1.0)
+            if ab == (1.0, -1.0) and np.all(np.abs(xf) < 1e150):
+                y2 = xf.copy()            # x - x: the combination is a silent record
             drive_linearity(ctx, eqsig, IMPLS[(idx // 3) % 2], xf, y2, ab[0], ab[1])
         return
     # sinusoid items
@@ -1508,6 +1949,12 @@ def run_item(ctx, eqsig, rng, idx, item):
         ctx.case(core.digest(c1, c2, 'combine', angles, analysed), nontrivial=True, cls='combine-%s-%s' % (analysed, _par(length)),
                  sample={'fn': 'combine_at_angle+get_max_stockwell_freq', 'n': length, 'angles': angles, 'analysed': analysed})
         drive_combine(ctx, eqsig, c1, c2, float(dts[(idx + 3) % 8]), angles, analysed)
+        plan = make_plan(rng, idx, length)
+        ctx.case(core.digest(c1, c2, 'protocols', plan), nontrivial=True,
+                 cls='protocols-%s-%s-%s' % (plan['proto'], plan['warm'], plan['obj']),
+                 sample={'fn': 'copy/deepcopy/pickle + reads, resets, mutators, assignments, refused operations', 'n': length,
+                         'plan': plan})
+        drive_protocols(ctx, eqsig, c1, c2, dts[(idx + 4) % 8], plan)
         muts = [MUTATORS[int(i)] for i in rng.permutation(len(MUTATORS))[:3]]
         drive_history(ctx, eqsig, xs[2].copy(), xs[1].copy(), dts[(idx + 1) % 8], dts[(idx + 2) % 8], order, muts)
 
@@ -1600,6 +2047,11 @@ def replay(w):
         elif fn == 'combine':
             drive_combine(ctx, eqsig, np.array(rec, dtype=float), np.array(w['record2'], dtype=float), dt, w.get('angles', [180]),
                           w.get('analysed', 'both'), w.get('extras', True))
+        elif fn == 'aba':
+            b = None if str(w.get('bkind', '')).startswith('rejected') else np.array(w['record2'], dtype=float)
+            drive_aba(ctx, eqsig, _container(rec, kind), b, dt, w.get('impl', 'transform'), w.get('bkind', 'same-shape'))
+        elif fn == 'protocols':
+            drive_protocols(ctx, eqsig, _container(rec, kind), np.array(w['record2'], dtype=float), dt, w['plan'])
         elif fn == 'history':
             drive_history(ctx, eqsig, np.array(rec, dtype=float), np.array(w['record2'], dtype=float), dt,
                           _dt_build(w.get('dt2', 0.01), w.get('dt2_form')), w.get('order', []), w.get('muts', []))
